@@ -105,3 +105,66 @@ def r16a(ctx):
     t = ast.unparse(r.node)
     good = "self.pack()" in t and "self._fragment_packed" in t
     (ctx.ok if good else ctx.bad)("io.parquet.FragmentWrapper.__reduce__", fw.module.loc(r.node), "packs the fragment and ships the packed form" if good else "FragmentWrapper.__reduce__ no longer packs and ships the fragment")
+
+
+# (function, name) -> reason an unpacked field is deliberately not used
+R16B_UNUSED_OK = {
+    # keyed by position in the unpacked tuple, not by the local's name
+    ("_collection.read_parquet", 0, 3): "validation loop over user filters (col, op, val): only operator and value are inspected",
+    ("_shuffle.SortValues._divisions", 1, 4): "only the divisions and the presorted flag of the cached quadruple (divisions, mins, maxes, presorted) are needed here",
+    ("_shuffle.SortValues._divisions", 2, 4): "only the divisions and the presorted flag of the cached quadruple (divisions, mins, maxes, presorted) are needed here",
+}
+
+
+@rule(
+    "R16b",
+    ["C16", "C18"],
+    """RECORDS ARE READ BACK COMPLETELY AND BY THE RIGHT NAME: (a) every name bound by unpacking a tuple / record (`a, b, c = packed`,
+    `for k, v in ...`) is read afterwards unless it starts with an underscore - the writer stored the field for a reason
+    (FragmentWrapper.pack stores the partition expression and the file size; an unpack that drops one rebuilds a different
+    fragment after pickling); (b) a module-level namedtuple is bound to the very name it carries (`X = namedtuple("X", ...)`),
+    otherwise its instances - operands of expressions - cannot be pickled by reference.""",
+)
+def r16b(ctx):
+    model = ctx.model
+    n = 0
+    for mod, cls, fn in model.all_functions():
+        loads = set()
+        for x in ast.walk(fn):
+            if isinstance(x, ast.Name) and isinstance(x.ctx, (ast.Load, ast.Del)):
+                loads.add(x.id)
+        fq = qual(cls, fn) if cls is not None else f"{mod.name.split('.', 1)[-1]}.{fn.name}"
+        for a in ast.walk(fn):
+            tg = None
+            if isinstance(a, ast.Assign) and len(a.targets) == 1 and isinstance(a.targets[0], (ast.Tuple, ast.List)):
+                tg = a.targets[0]
+            elif isinstance(a, (ast.For, ast.comprehension)) and isinstance(a.target, (ast.Tuple, ast.List)):
+                tg = a.target
+            if tg is None or len(tg.elts) < 2:
+                continue
+            for pos, top in enumerate(tg.elts):
+              for e in ast.walk(top):
+                if not isinstance(e, ast.Name):
+                    continue
+                n += 1
+                if e.id.startswith("_") or e.id in loads:
+                    continue
+                cid = f"{fq}:unpacked:{pos}/{len(tg.elts)}"
+                if (fq, pos, len(tg.elts)) in R16B_UNUSED_OK:
+                    ctx.exempt(cid, mod.loc(e), R16B_UNUSED_OK[(fq, pos, len(tg.elts))])
+                else:
+                    ctx.bad(cid, mod.loc(e), f"`{e.id}` is unpacked from `{ast.unparse(tg)[:80]}` and never read: the field the writer stored is dropped on the way back")
+    ctx.ok("unpacked names are read", "", f"{n} names bound by tuple unpacking")
+    ctx.floor("names bound by tuple unpacking", n, 250)
+    nt = 0
+    for mod in model.modules.values():
+        for st in mod.tree.body:
+            if isinstance(st, ast.Assign) and len(st.targets) == 1 and isinstance(st.targets[0], ast.Name) and isinstance(st.value, ast.Call) and (dotted(st.value.func) or "").split(".")[-1] in ("namedtuple", "NamedTuple"):
+                tn = st.value.args[0] if st.value.args else next((k.value for k in st.value.keywords if k.arg == "typename"), None)
+                nt += 1
+                cid = f"{mod.name.split('.', 1)[-1]}.{st.targets[0].id}:namedtuple-name"
+                if isinstance(tn, ast.Constant) and tn.value == st.targets[0].id:
+                    ctx.ok(cid, mod.loc(st), "typename equals the module attribute")
+                else:
+                    ctx.bad(cid, mod.loc(st), f"namedtuple `{ast.unparse(tn) if tn is not None else '?'}` is bound to the module name `{st.targets[0].id}`: pickle looks the class up as {mod.name}.{tn.value if isinstance(tn, ast.Constant) else '?'} and fails, so an expression holding such a value cannot be sent to another process")
+    ctx.floor("module-level namedtuples", nt, 2)
